@@ -15,9 +15,9 @@ def explore(ctx, binname, module, n_quick, n_thorough, per_file=25, cfg=None, ex
                      {"extra_env": {"VERIF_SEED": str(ctx.seed * 100000 + i)}}))
     paths = ctx.record_many(jobs, parallel=4)
     rs = ctx.tlc_explore_many(module, paths, parallel=4 if ctx.quick else 8, cfg=cfg, workers=workers)
-    # second source: functions lifted by the real translators from corpus/c17 (if the recorder supports it)
+    # second source: functions lifted by the real translators from corpus/c17 and corpus/lifted (if the recorder supports it)
     if lifted:
-        lp = ctx.record(binname, ["--mode", "lifted", "--corpus", os.path.join(core.ROOT, "corpus", "c17")], "lifted.json")
+        lp = ctx.record(binname, ["--mode", "lifted", "--corpus", os.path.join(core.ROOT, "corpus", "c17") + "," + os.path.join(core.ROOT, "corpus", "lifted")], "lifted.json")
         rs.append(ctx.tlc_explore(module, lp, cfg=cfg, workers=workers))
         paths = paths + [lp]
     nprog = 0
